@@ -127,7 +127,9 @@ func minimise(t *testing.T, p *Prop, seed uint64, first *simrt.Run, sig, tier st
 			return nil
 		}
 		tries++
-		r := execOnce(t, p, tape.Replay(seed, c), tier, false, known)
+		tp := tape.Replay(seed, c)
+		tp.OverrunLimit = 2*len(first.T.Rec) + 1000
+		r := execOnce(t, p, tp, tier, false, known)
 		if hasSig(r, sig) {
 			return r
 		}
